@@ -261,6 +261,49 @@ def c13_include_drops_omp_conditional_option():
     return a == b, dict(with_include=a, inline=b)
 
 
+def _only_syntax_error(src, std="f2003"):
+    from fparser.two.utils import FortranSyntaxError
+    try:
+        str(_parser(std)(_reader(src)))
+        return True, dict(outcome="parsed")
+    except FortranSyntaxError:
+        return True, dict(outcome="FortranSyntaxError")
+    except BaseException as e:  # noqa
+        return False, dict(outcome="%s: %s" % (type(e).__name__, str(e)[:120]))
+
+
+def c06_kind_selector_too_short():
+    """D27: 'integer ) i' lets InternalError escape (Kind_Selector.match, behaviour pinned by tests)"""
+    return _only_syntax_error("program p\n  integer ) i\nend program p\n")
+
+
+def c06_use_only_dtio_generic_spec():
+    """D25 (fixed): a dtio-generic-spec in an only-list is valid"""
+    return _only_syntax_error("module m\n  use a, only: read(formatted)\nend module m\n")
+
+
+def c06_hollerith_length_with_blank():
+    """D26 (fixed)"""
+    return _only_syntax_error("program p\n100 format(1 2Habcdefghijkl)\nend program p\n")
+
+
+def c06_component_decl_assertion():
+    """D28 (fixed)"""
+    return _only_syntax_error("module m\n type t\n  integer if k\n end type t\nend module m\n")
+
+
+def c06_deallocate_assertion():
+    """D29 (fixed)"""
+    return _only_syntax_error("program p\n deallocate(a = )\nend program p\n")
+
+
+def c06_array_constructor_empty_item():
+    """D30 (fixed)"""
+    ok1, o1 = _only_syntax_error("program p\n  a = [1 2,, 3]\nend program p\n")
+    ok2, o2 = _only_syntax_error("program p\n  a = [(i = 1, 2)]\nend program p\n")
+    return ok1 and ok2, dict(first=o1, second=o2)
+
+
 def c14_directive_backslash_at_eof():
     """D9: a directive whose last line ends in a backslash at end of input is lost"""
     r = _reader("x = 1\n#define X \\\n")
